@@ -41,10 +41,16 @@ def total(tier: str) -> int:
 def plan_for(tier: str, seed: int, i: int) -> dict:
     rng = rng_for(seed, ID, tier, i)
     auth_pass = gen.gen_bytes(rng, rng.choice([1, 8, 10, 33, 64, 100]))
+    srng = rng_for(seed, ID, tier + ":pw", i)
+    structured = srng.random() < 0.06
     proto = {"version": "v3", "user": rng.choice(["u", "alice"]), "level": 3,
              "auth": rng.choice(["md5", "sha1"]), "auth_pass": auth_pass,
              "priv": rng.choice(["verifstream", "verifstream2"]),
              "priv_pass": auth_pass if rng.random() < 0.2 else gen.gen_bytes(rng, rng.choice([1, 8, 17, 64, 200]))}
+    if structured:
+        proto["priv_pass"] = gen.gen_structured_passphrase(srng)
+        if srng.random() < 0.5:
+            proto["auth_pass"] = gen.gen_structured_passphrase(srng)
     zrng = rng_for(seed, ID, tier + ":z", i)
     eng = b"\x80" + gen.gen_bytes(rng, rng.choice([4, 11, 31]))
     if zrng.random() < 0.12:
